@@ -25,7 +25,19 @@ def gen_program(rng, N, M, steps):
         s = size[x]
         v = 100 + step
         r = rng.random()
-        if r < 0.22:
+        if r < 0.10 and s:
+            # an argument that aliases one of the container's own elements (C11 under constant evaluation: heap_temporary)
+            i = rng.randrange(s)
+            k = rng.random()
+            if k < 0.25:
+                ops.append(('pbs', x, i)); size[x] = s + 1
+            elif k < 0.5:
+                ops.append(('inss', x, rng.randint(0, s), i)); size[x] = s + 1
+            elif k < 0.85:
+                n = rng.choice([1, 2, 3, 4]); ops.append(('insns', x, rng.randint(0, s), n, i)); size[x] = s + n
+            else:
+                n = rng.choice([s + 1, s + 3]); ops.append(('rszs', x, n, i)); size[x] = n
+        elif r < 0.22:
             ops.append(('pb', x, v)); size[x] = s + 1
         elif r < 0.32:
             p = rng.randint(0, s); ops.append(('ins', x, p, v)); size[x] = s + 1
@@ -72,6 +84,45 @@ def gen_program(rng, N, M, steps):
     return ops
 
 
+def directed_programs(N, M):
+    """deterministic programs that walk the constant-evaluation-only code paths with arguments aliasing the container's
+    own elements: insert (pos, n, v[i]) / insert (pos, v[i]) / push_back (v[i]) / resize (n, v[i]) for every position,
+    every alias index and counts below, at and above the tail length, both in place (spare capacity) and reallocating"""
+    progs = []
+    base = 4
+
+    def rebuild(ops, x, cap):
+        ops.append(('clr', x))
+        ops.append(('stf', x))
+        if cap:
+            ops.append(('rsv', x, cap))
+        for k in range(base):
+            ops.append(('pb', x, 10 + k))
+    for cap in (base + 6, 0):          # in place / reallocating
+        for x in ('a', 'c'):
+            ops = []
+            for p in range(base + 1):
+                for i in range(base):
+                    for n in sorted(set([1, max(base - p, 1), base - p + 1, 5])):
+                        if cap and base + n > cap:
+                            continue
+                        rebuild(ops, x, cap)
+                        ops.append(('insns', x, p, n, i))
+            progs.append(ops)
+            ops = []
+            for p in range(base + 1):
+                for i in range(base):
+                    rebuild(ops, x, cap)
+                    ops.append(('inss', x, p, i))
+            for i in range(base):
+                rebuild(ops, x, cap)
+                ops.append(('pbs', x, i))
+                rebuild(ops, x, cap)
+                ops.append(('rszs', x, base + 2, i))
+            progs.append(ops)
+    return progs
+
+
 def cpp_of(ops, N, M, pid):
     L = []
     L.append('template <typename T> constexpr unsigned long long prog%d ()' % pid)
@@ -114,6 +165,14 @@ def cpp_of(ops, N, M, pid):
             L.append('  %s.swap (%s); t%s = true; t%s = true;' % (x, op[2], x, op[2]))
         elif k == 'clr':
             L.append('  %s.clear ();' % x)
+        elif k == 'pbs':
+            L.append('  %s.push_back (%s[%d]);' % (x, x, op[2]))
+        elif k == 'inss':
+            L.append('  { auto it = %s.insert (%s.begin () + %d, %s[%d]); mixin (h, static_cast<unsigned long long> (it - %s.begin ())); }' % (x, x, op[2], x, op[3], x))
+        elif k == 'insns':
+            L.append('  { auto it = %s.insert (%s.begin () + %d, %d, %s[%d]); mixin (h, static_cast<unsigned long long> (it - %s.begin ())); }' % (x, x, op[2], op[3], x, op[4], x))
+        elif k == 'rszs':
+            L.append('  %s.resize (%d, %s[%d]);' % (x, op[2], x, op[3]))
         if k != 'asm':   # the contents of a moved-from source are unspecified: it is cleared by the next step before being observed
             L.append('  observe (h, a, ta); observe (h, b, tb); observe (h, c, tc);')
     L.append('  return h;')
@@ -197,6 +256,10 @@ def shadow_lines(ops):
         elif k == 'asm': lines.append('asm %s %s' % (x, op[2])); st[x] = list(st[op[2]]); st[op[2]] = None
         elif k == 'swp': lines.append('swp %s %s' % (x, op[2])); st[x], st[op[2]] = st[op[2]], st[x]
         elif k == 'clr': lines.append('clr %s' % x); st[x] = []
+        elif k == 'pbs': lines.append('pb %s s%d' % (x, op[2])); l.append(l[op[2]])
+        elif k == 'inss': lines.append('ins %s %d s%d' % (x, op[2], op[3])); l.insert(op[2], l[op[3]])
+        elif k == 'insns': lines.append('insn %s %d %d s%d' % (x, op[2], op[3], op[4])); l[op[2]:op[2]] = [l[op[4]]] * op[3]
+        elif k == 'rszs': lines.append('rszv %s %d s%d' % (x, op[2], op[3])); st[x] = (l + [l[op[3]]] * op[2])[:op[2]]
     return lines
 
 
@@ -226,7 +289,7 @@ def model_digest(ops, N, M):
             return None, 'model answered %r to %r' % (o, op)
         k, x = op[0], op[1]
         out_, state = parse(o)
-        if k in ('ins', 'insn', 'era', 'erar', 'insr'):
+        if k in ('ins', 'insn', 'era', 'erar', 'insr', 'inss', 'insns'):
             h = mix(h, int(out_[1:]))
         if k == 'stf':
             taint[x] = False
